@@ -35,12 +35,11 @@ fn main() {
 				4..=8 => 2,
 				_ => 3,
 			};
-			let cap = rng.below(4) as u32;
 			let nops = rng.range(8, 40);
-			// one case in six on the harness-owned bounded queue
-			let eager = !rng.chance(1, 6);
-			let qcap = if eager { 1024 } else { rng.range(1, 4) as u32 };
-			let lines = run_generated(&mut out, &mut rng, caseno, eager, nconns, cap, qcap, nops, &pf);
+			// one case in six on the harness-owned bounded queue, a quarter of the rest on `ws::connect`
+			let (mode, cap, qcap) = pick_config(&mut rng, 6, &[0, 1, 1, 2, 2, 3, u32::MAX]);
+			let eager = mode != "manual";
+			let lines = run_generated(&mut out, &mut rng, caseno, mode, nconns, cap, qcap, nops, &pf);
 			if eager && bases.len() < (if thorough { 60 } else { 6 }) && i % 3 == 0 {
 				bases.push(lines);
 			}
